@@ -75,6 +75,8 @@ def atom_table(md, top):
                 row[kw] = eval(src, {"atom": atom})
             except Exception:  # noqa: BLE001
                 row[kw] = None
+        # the number of bonds of an atom, counted here from the bond list (not through the attribute the keyword reads)
+        row["n_bonds"] = sum(1 for b in top.bonds if b[0] is atom or b[1] is atom)
         rows.append(row)
     return rows
 
@@ -392,6 +394,38 @@ def run(ctx):
             got_s = "ERR"
         if m is not None and ("ERR" if m.startswith("ERR") else m) != got_s:
             ctx.broke("correspondence:select-raw", "%r: impl %s model %s" % (x, got_s, m))
+    # ---- the same Topology object edited between two selections (an ion deleted, an atom inserted, a bond added): the second selection
+    # must describe the topology as it is now, for every keyword (indices, bond counts, residue membership all shift)
+    top2 = build_top(md)
+    stages = []
+    try:
+        top2.select("n_bonds 0 or index 3 or resid 2")                      # a selection before the edits
+        ion = [a.index for a in top2.atoms if a.residue.name == "NA"]
+        if ion:
+            top2.delete_atom_by_index(ion[0]); stages.append("after deleting an unbonded ion")
+        r_ = [r for r in top2.residues if r.name == "ALA"][0]
+        last_ = max(a.index for a in r_.atoms)
+        top2.insert_atom("HX", md.element.hydrogen, r_, index=last_ + 1, rindex=len(list(r_.atoms))); stages.append("after inserting an atom")
+    except Exception as ex:  # noqa: BLE001
+        ctx.broke("harness:c12-edit", "%s: %s" % (type(ex).__name__, ex))
+    if stages:
+        rows2 = atom_table(md, top2)
+        for e in exprs[:ctx.n(60, 300)] + [("inlist", ["n_bonds"], [("n", 0)]), ("inlist", ["n_bonds"], [("n", 1), ("n", 4)]), ("cmp", [("kw", ["n_bonds"]), ("lit", ("n", 2))], ["ge"])]:
+            T, S = R.expr(e)
+            s2 = " ".join(S)
+            try:
+                want = [i for i, row in enumerate(rows2) if ev(e, row)]
+                want_s = "OK " + ",".join(map(str, want))
+            except TypeErr:
+                want_s = "ERR"
+            try:
+                got_s = "OK " + ",".join(map(str, top2.select(s2).tolist()))
+            except Exception:  # noqa: BLE001
+                got_s = "ERR"
+            ctx.case(None, ("edited", s2)); ctx.count("expressions on a topology edited between selections")
+            if got_s != want_s:
+                viol("meaning|edited-topology", "select(%r) on a topology edited in place (%s) gives %s, its documented meaning is %s" % (s2, "; ".join(stages), got_s, want_s), dict(expr=s2, stages=stages))
+                break
     for key, (what, rp) in seen.items():
         ctx.violation(key, what, rp)
 
